@@ -10,7 +10,7 @@ handling) is a BOUNDED stand-in: exhaustive comparison with brute-force leftmost
 from pyvc.util import native_file
 
 PROPERTY = 'C14'
-UNITS = ['C14', 'C06', 'C07']
+UNITS = ['C14', 'C06', 'C07', 'C10']
 TRUSTED = []
 ASSUMPTIONS = ["ParsingFrontend._scan: only two regions are under contract (snapshot, resume); longest-match selection and replay are covered by the bounded stand-in only (never counted as proved)",
                "'no skipped position starts a snippet that parses' fails for the basic lexer because candidates are lexed with maximal munch over the whole remaining window (known finding F18)"]
